@@ -140,7 +140,41 @@ def make_globals(c, real_globals):
         if isinstance(x, SSet) and not a:
             return x.any_element()
         return _b.min(x, *a, **k)
-    g.update(get_size=get_size, sum=ssum, len=slen, max=smax, min=smin)
+    def lc(elt_f, cond_f, it):
+        """list comprehension: over the age table it is the filter contract (same facts as the filter loop); otherwise as written"""
+        if isinstance(it, SX.GenItems):
+            s_ = g['__self__']
+            if it.d is not s_.last_accessed:
+                raise SX.PathAbort('comprehension over a symbolic map other than the age table')
+            key = c.new_int('key')
+            n0 = len(c.pc)
+            c.assume(s_.last_accessed.has(key))
+            item = Z(key) if it.keys_only else (Z(key), Z(z3.Select(s_.last_accessed.val, key)))
+            nd, nl = len(s_.data.log), len(s_.last_accessed.log)
+            taken = bool(cond_f(item))
+            e = elt_f(item)
+            c.require('filter comprehension: does not modify data / last_accessed', z3.BoolVal(len(s_.data.log) == nd and len(s_.last_accessed.log) == nl))
+
+            def carries(x):
+                return z3.eq(x.e, key) if isinstance(x, Z) else (any(carries(y) for y in x) if isinstance(x, (tuple, list)) else False)
+
+            def rebuild(x, q):
+                return Z(z3.substitute(x.e, (key, q))) if isinstance(x, Z) else (type(x)(rebuild(y, q) for y in x) if isinstance(x, (tuple, list)) else x)
+            c.require('filter comprehension: every element carries the key it was built from', z3.BoolVal(carries(e)))
+            if taken:
+                c.require('loop 0: a frozen key (importance 0) is never selected for removal', s_.var_importance.imp(key) != 0)
+                c.require('loop 0: a selected key was last used more than one calculation ago',
+                          s_.calculation_count.e - z3.Select(s_.last_accessed.val, key) > 1)
+            del c.pc[n0:]
+            sel = z3.Function(f'selected!{next(c.fresh)}', K, z3.BoolSort())
+            q = z3.Int('k!s')
+            c.assume(z3.ForAll([q], z3.Implies(sel(q), z3.And(s_.last_accessed.has(q), s_.var_importance.imp(q) != 0,
+                                                           s_.calculation_count.e - z3.Select(s_.last_accessed.val, q) > 1))))
+            return SSet(sel, lambda kq, e=e: rebuild(e, kq))
+        if isinstance(it, SSet):
+            raise SX.PathAbort('comprehension over a filtered set')
+        return [elt_f(x) for x in it if cond_f(x)]
+    g.update(get_size=get_size, sum=ssum, len=slen, max=smax, min=smin, __lc__=lc)
     return g
 
 
@@ -508,6 +542,9 @@ SDict.__delitem__ = _di
 def cleanup_paths(verbose):
     import aurel.core as C
     tree, loops = SX.extract_loops(C.AurelCore.cleanup_cache)
+    from props.readvc import Rewriter
+    tree = ast.fix_missing_locations(Rewriter().visit(tree))          # comprehensions -> helper calls (mechanical)
+    loops = [n for n in ast.walk(tree) if isinstance(n, (ast.For, ast.While))]
     results = []
 
     def run():
@@ -521,6 +558,7 @@ def cleanup_paths(verbose):
         arr0 = s.var_importance.arr
         imp0 = lambda k: z3.Select(arr0, k)
         glb = make_globals(c, C.__dict__)
+        glb['__self__'] = s
         s._glb = glb
         drv = Driver(c, s, glb, loops, dom0, la0, imp0)
         loc = {'self': s}
